@@ -51,7 +51,7 @@ def binop(it: Interp, op, a, b):
     if hb is not None:
         return hb(it, op, a, True)
     if isinstance(a, ItemV) or isinstance(b, ItemV):
-        raise Unsupported("OPACITY: arithmetic on an item instead of binner.valueof(item)")
+        raise OpacityViolation("OPACITY: arithmetic on an item instead of binner.valueof(item)")
     if not (_is_conc_num(a) or _sym_num(a)) or not (_is_conc_num(b) or _sym_num(b)):
         raise Unsupported(f"binary operator {type(op).__name__} on {type(a).__name__} and {type(b).__name__}")
     if _is_conc_num(a) and _is_conc_num(b):
@@ -154,7 +154,7 @@ def values_equal(it, a, b):
     if isinstance(a, ItemV) or isinstance(b, ItemV):
         if a is None or b is None:
             return False
-        raise Unsupported("OPACITY: comparison of an item with a non-item")
+        raise OpacityViolation("OPACITY: comparison of an item with a non-item")
     if isinstance(a, (tuple, PList)) and isinstance(b, (tuple, PList)):
         if isinstance(a, tuple) != isinstance(b, tuple):
             return False
@@ -218,7 +218,7 @@ def compare(it: Interp, op, a, b):
             it.assume(z3.ForAll([x, y], z3.Implies(L.rank(x) == L.rank(y), x == y)))
         return SV(_CMP[type(op)](L.rank(a.t), L.rank(b.t)))
     if isinstance(a, ItemV) or isinstance(b, ItemV):
-        raise Unsupported("OPACITY: ordering comparison of an item with a number")
+        raise OpacityViolation("OPACITY: ordering comparison of an item with a number")
     if isinstance(a, tuple) and isinstance(b, tuple):
         return tuple_compare(it, op, a, b)
     if isinstance(a, (str, SymStr)) or isinstance(b, (str, SymStr)):
@@ -519,7 +519,7 @@ def setslice(it: Interp, base, lo, hi, v):
         for k in range(a, b):
             x = vals[k - a] if len(vals) != 1 else vals[0]
             if isinstance(x, ItemV):
-                raise Unsupported("OPACITY: item stored into a numeric array")
+                raise OpacityViolation("OPACITY: item stored into a numeric array")
             base.set(k, x)
         return
     raise Unsupported(f"slice assignment on {type(base).__name__}")
@@ -646,11 +646,28 @@ def sym_sorted(it, elems, keyf, reverse):
     n = len(elems)
     it.trust("builtin sorted/list.sort: stable permutation ordered by key")
     is_item = all(isinstance(x, ItemV) for x in elems)
+    def item_key(f):
+        def g(x):
+            k = f(x)
+            if isinstance(k, ItemV):        # items ordered by themselves: their own (arbitrary, injective) rank -- see compare()
+                it.opacity_events.append(f"line {it.cur_line}: sorted() orders the items by themselves, not by valueof")
+                xx, yy = L.fresh("x", L.Item), L.fresh("y", L.Item)
+                if not getattr(it, "_rank_axiom", False):
+                    it._rank_axiom = True
+                    it.assume(z3.ForAll([xx, yy], z3.Implies(L.rank(xx) == L.rank(yy), xx == yy)))
+                return SV(L.rank(k.t))
+            return k
+        return g
+    keyf = item_key(keyf)
     keys = [keyf(x) for x in elems]
-    if all(not isinstance(k, SV) for k in keys) and all(not isinstance(x, (SV, ItemV)) or isinstance(k, (int, Fraction)) for x, k in zip(elems, keys)):
+    if all(isinstance(k, (int, Fraction, str)) and not isinstance(k, bool) for k in keys) and len({type(k) is str for k in keys}) <= 1:
         order = sorted(range(n), key=lambda i: keys[i], reverse=reverse)
         return [elems[i] for i in order]
     if not (is_item or all(isinstance(x, (SV, int, Fraction)) and not isinstance(x, bool) for x in elems)):
+        return forking_sort(it, elems, keyf, reverse)
+    if all(isinstance(x, int) for x in elems):
+        # concrete elements (bin indices) ordered by symbolic keys: a comparison sort that forks only on feasible comparisons,
+        # instead of a symbolic permutation whose concrete values would have to be guessed afterwards
         return forking_sort(it, elems, keyf, reverse)
     if n <= 1:
         return list(elems)
@@ -827,7 +844,7 @@ def bi_sum(it, args, kw):
         return src.total(it)
     if isinstance(src, SSeq):
         if src.kind == "item":
-            raise Unsupported("OPACITY: sum() over items instead of their values")
+            raise OpacityViolation("OPACITY: sum() over items instead of their values")
         raise Unsupported("sum over a symbolic-length numeric sequence")
     acc = start
     for x in iterate(it, src):
@@ -913,7 +930,7 @@ def bi_abs(it, args, kw):
     if isinstance(x, SV):
         return SV(z3.If(x.t >= 0, x.t, -x.t))
     if isinstance(x, ItemV):
-        raise Unsupported("OPACITY: abs of an item")
+        raise OpacityViolation("OPACITY: abs of an item")
     return abs(x)
 
 
@@ -1295,7 +1312,7 @@ def _as_numlist(it, x):
     out = []
     for e in iterate(it, x):
         if isinstance(e, ItemV):
-            raise Unsupported("OPACITY: item stored into a numeric array")
+            raise OpacityViolation("OPACITY: item stored into a numeric array")
         if isinstance(e, (PList, tuple, NdArr)):
             raise Unsupported("multi-dimensional array")
         out.append(e)
